@@ -115,6 +115,22 @@ func genCase(g *d.Gen, c *Ctx) *d.Case {
 			elems = append(elems[:pos], append([]d.Elem{e}, elems[pos:]...)...)
 		}
 	}
+	// packets without payload between the sender's items (never inside a fragmented unit: RFC 6184
+	// 5.8 / RFC 7798 4.4.3 forbid other packets of the stream between the fragments): padding-only
+	// packets (pacing, probing, keep-alive) or a bare header — they carry no unit at all
+	if r.Chance(25) {
+		k := 1 + r.Intn(3)
+		for i := 0; i < k; i++ {
+			e := d.Elem{Kind: 'R', TS: ts + uint32(r.Intn(3))*step, M: r.Chance(20)}
+			if cs.Aac && r.Chance(25) {
+				e.Kind = 'Q'
+			}
+			pos := len(pre) + r.Intn(len(elems)-len(pre)+1)
+			elems = append(elems[:pos], append([]d.Elem{e}, elems[pos:]...)...)
+		}
+		cs.Tags = append(cs.Tags, "empty-packets")
+		c.Count("with-padding-only-or-empty-packets")
+	}
 	cs.Sync = !cs.Aac || r.Bool()
 	// RTCP sender report somewhere (sync mode only: frames are attributed to packets there)
 	if cs.Sync && r.Chance(6) {
@@ -187,7 +203,37 @@ func genCase(g *d.Gen, c *Ctx) *d.Case {
 						p = firstFree
 					}
 				}
-				cs.Order[p], cs.Order[p+1] = cs.Order[p+1], cs.Order[p]
+				switch y := r.Intn(100); {
+				case y < 50 || n-firstFree < 4: // adjacent swap
+					cs.Order[p], cs.Order[p+1] = cs.Order[p+1], cs.Order[p]
+					c.Count("reorder-adjacent-swap")
+				case y < 85: // one packet overtakes / falls behind by 2..5 positions
+					q := p + 2 + r.Intn(4)
+					if q >= n {
+						q = n - 1
+					}
+					a, b := p, q
+					if r.Bool() { // late arrival: p moves to q
+						x := cs.Order[a]
+						copy(cs.Order[a:b], cs.Order[a+1:b+1])
+						cs.Order[b] = x
+					} else { // early arrival: q moves to p
+						x := cs.Order[b]
+						copy(cs.Order[a+1:b+1], cs.Order[a:b])
+						cs.Order[a] = x
+					}
+					c.Count("reorder-displaced-packet")
+				default: // a window of 3..5 packets arrives in arbitrary order
+					w := 3 + r.Intn(3)
+					if p+w > n {
+						w = n - p
+					}
+					for j := w - 1; j > 0; j-- {
+						k := r.Intn(j + 1)
+						cs.Order[p+j], cs.Order[p+k] = cs.Order[p+k], cs.Order[p+j]
+					}
+					c.Count("reorder-shuffled-window")
+				}
 			}
 			cs.Tags = append(cs.Tags, "reorder")
 			c.Count("arrival-reorder")
@@ -209,10 +255,59 @@ func genCase(g *d.Gen, c *Ctx) *d.Case {
 		c.Count("arrival-in-order")
 		c.Count("with-filler-units")
 	}
-	if r.Chance(40) {
-		cs.Hdr = 1 + r.Intn(4)
-		if os.Getenv("C06_DEBUG_NOPAD") != "" && cs.Hdr >= 3 {
-			cs.Hdr -= 2
+	// audio packets and RTCP travel in their own RTP streams / channels: they may arrive anywhere
+	// between the video packets, also between the fragments of a unit (not a reordering of the
+	// video stream)
+	if r.Chance(30) {
+		var chOf []byte // per packet position: the element kind it came from
+		for _, e := range elems {
+			for k := 0; k < e.NPkts(); k++ {
+				chOf = append(chOf, e.Kind)
+			}
+		}
+		other := func(pos int) bool {
+			k := chOf[pos]
+			return k == 'U' || k == 'Q' || k == 'C' || k == 'X'
+		}
+		ord := cs.Order
+		if ord == nil {
+			ord = make([]int, n)
+			for i := range ord {
+				ord[i] = i
+			}
+		}
+		var vid, oth []int
+		for _, pos := range ord {
+			if pos >= firstFree && other(pos) {
+				oth = append(oth, pos)
+			} else {
+				vid = append(vid, pos)
+			}
+		}
+		if len(oth) > 0 {
+			// merge: the other streams' packets at random places after the parameter-set prefix
+			lo := 0
+			for lo < len(vid) && vid[lo] < firstFree {
+				lo++
+			}
+			out := append([]int{}, vid[:lo]...)
+			rest := vid[lo:]
+			for len(rest) > 0 || len(oth) > 0 {
+				if len(oth) > 0 && (len(rest) == 0 || r.Intn(len(rest)+len(oth)) < len(oth)) {
+					out, oth = append(out, oth[0]), oth[1:]
+				} else {
+					out, rest = append(out, rest[0]), rest[1:]
+				}
+			}
+			cs.Order = out
+			cs.Tags = append(cs.Tags, "cross-stream-interleave")
+			c.Count("arrival-audio-rtcp-interleaved-anywhere")
+		}
+	}
+	if r.Chance(45) {
+		cs.Hdr = 1 + r.Intn(6)
+		if os.Getenv("C06_DEBUG_NOPAD") != "" && (cs.Hdr == 3 || cs.Hdr == 4 || cs.Hdr == 6) {
+			cs.Hdr = 1
 		}
 	}
 	c.Count(fmt.Sprintf("rtp-header-variant-%d", cs.Hdr))
@@ -266,6 +361,10 @@ func run(c *Ctx) {
 			hi = len(cases)
 		}
 		runBatch(c, tbl, cases[lo:hi], lo < nCorpus)
+		if d.Stopped {
+			c.Note("stopped after a hang of the implementation: the remaining cases were not run")
+			break
+		}
 	}
 }
 
@@ -325,6 +424,9 @@ func runBatch(c *Ctx, tbl *d.SpsTable, cases []*d.Case, corpus bool) {
 			for k := range order {
 				order[k] = k
 			}
+		}
+		if d.Stopped {
+			break
 		}
 		if cs.Sync {
 			w.impl = d.RunSync(cs, w.m.Pkts, order)
@@ -426,7 +528,9 @@ func compare(c *Ctx, w *work) {
 		c.Find(Finding{Kind: "corr", Class: class, Case: w.line, Impl: impl, Model: model})
 	}
 	if im.Hung {
-		corr("hung", "no completion within 60 s", "alive="+B01(m.Alive))
+		// stable: nothing for HangBudget (5 min) on a call / a goroutine that normally takes microseconds
+		c.Find(Finding{Kind: "oracle", Class: classOf(cs, "depacketizer-hung"), Case: w.line,
+			Impl: fmt.Sprintf("no completion within %v: the units of this stream are never handed on", d.HangBudget), Spec: "every packet is consumed and the units are handed on", Model: "alive=" + B01(m.Alive)})
 		return
 	}
 	if im.Alive != m.Alive {
